@@ -226,8 +226,8 @@ MUTANTS = [
          old="			result_values = tuple(None if x is None else op_func(x, other) for x in self._underlying)",
          new="			result_values = tuple(op_func(x, other) for x in self._underlying)", rules=["a.arith-kernels"]),
     dict(id="dropna-keeps-falsy-out", module=_V,
-         old="		return Vector(tuple(elem for elem in self._underlying if elem is not None),\n			dtype=self._dtype.with_nullable(False) if self._dtype is not None else None)",
-         new="		return Vector(tuple(elem for elem in self._underlying if elem),\n			dtype=self._dtype.with_nullable(False) if self._dtype is not None else None)", rules=["d.na-triple"]),
+         old="		return Vector(tuple(elem for elem in self._underlying if elem is not None),\n			dtype=self._dtype.with_nullable(False) if self._dtype is not None else None,\n			name=self._name, as_row=self._display_as_row)",
+         new="		return Vector(tuple(elem for elem in self._underlying if elem),\n			dtype=self._dtype.with_nullable(False) if self._dtype is not None else None,\n			name=self._name, as_row=self._display_as_row)", rules=["d.na-triple"]),
     dict(id="aggregate-min-empty-zero", module=_T,
          old="					clean = [v for v in vals if v is not None]\n					return min(clean) if clean else None",
          new="					clean = [v for v in vals if v is not None]\n					return min(clean) if clean else 0", rules=["c.aggregators"], count=2, nth=0),
